@@ -16,8 +16,8 @@ from lib.ctx import MachineryError
 from harness.mt import mtlib
 
 QUICK_MC = ["q_plain", "q_flush", "q_fail", "q_timeout", "nw1", "live", "reinit", "reinit_fixed", "reinit_bs", "reinit_bs_fixed",
-            "reinit_nw_up", "reinit_nw_down"]
-ALL_MC = ["plain", "bs1", "flush", "q_barrier", "fail", "spur", "timeout", "nw1", "live", "reinit", "reinit_fixed", "reinit_fixed3", "reinit_bs", "reinit_bs_fixed", "reinit_nw_up", "reinit_nw_down", "update"]
+            "reinit_nw_up", "reinit_nw_down", "q_failmain", "q_failmain_flush"]
+ALL_MC = ["plain", "bs1", "flush", "q_barrier", "fail", "spur", "timeout", "nw1", "live", "reinit", "reinit_fixed", "reinit_fixed3", "reinit_bs", "reinit_bs_fixed", "reinit_nw_up", "reinit_nw_down", "q_failmain", "q_failmain_flush", "update"]
 
 def model_check(ctx):
     names = QUICK_MC if ctx.quick else ALL_MC
@@ -253,7 +253,12 @@ def run(ctx):
                 violation("failalloc:ret:%s" % g["inp"], "with one failed allocation the encoder ended with %s, neither "
                           "LZMA_MEM_ERROR nor LZMA_STREAM_END (%s)" % (last_f, label), rp)
             failruns[0 if last_f == lz.MEM_ERROR else 1] += 1
-            continue
+            if last_f != lz.STREAM_END:
+                # the failure path (threads_stop, LZMA_MEM_ERROR, lzma_end) must be a behaviour of the model too
+                if init_ev is not None and init_ev.get("a") == 0:
+                    g["runs"].append((label, [{"e": "Reset", "tailsz": 0}] + [e for e in evs if e["e"] != "FlushDone"]))
+                continue
+            # the failing ordinal was never reached: an ordinary run, judged as such below
         if g.get("big"):
             fallback_runs[0] += any(e["e"] == "WEncCode" and e["d"] == 1 for e in evs)
         if any(e["e"] in ("OVERFLOW", "TOOMANYCALLS") for e in evs):
